@@ -190,20 +190,34 @@ pub async fn open_pair(
     net_ba: NetCfg,
     models: crate::wire::Models,
 ) -> Option<Pair> {
-    let (cs, ls, net) = SimStream::pair("client", "listener", net_ab, net_ba);
-    let mon = crate::wire::install(&net, ["client", "listener"], [models, models]);
+    open_pair_grouped(ccfg, lcfg, net_ab, net_ba, models, ["client", "listener"], [1, 2]).await
+}
+
+/// As `open_pair`, with the names and task groups of the two endpoints chosen by the caller
+/// (a second pair in the same run)
+pub async fn open_pair_grouped(
+    ccfg: &EndpointCfg,
+    lcfg: &EndpointCfg,
+    net_ab: NetCfg,
+    net_ba: NetCfg,
+    models: crate::wire::Models,
+    names: [&'static str; 2],
+    groups: [u32; 2],
+) -> Option<Pair> {
+    let (cs, ls, net) = SimStream::pair(names[0], names[1], net_ab, net_ba);
+    let mon = crate::wire::install(&net, names, [models, models]);
     let slot: Slot<Result<ListenerConnectionHandle, fe2o3_amqp::connection::OpenError>> = Slot::new();
     let s2 = slot.clone();
     let lcfg2 = lcfg.clone();
     sim::spawn(
         "listener-accept",
-        sim::in_group(2, async move {
+        sim::in_group(groups[1], async move {
             let acceptor = listener_acceptor(&lcfg2);
             let r = acceptor.accept(ls).await;
             s2.put(r);
         }),
     );
-    let client = sim::op("client open", sim::in_group(1, client_open(ccfg, cs))).await?;
+    let client = sim::op("client open", sim::in_group(groups[0], client_open(ccfg, cs))).await?;
     let listener = sim::op("listener accept", slot.take()).await?;
     match (client, listener) {
         (Ok(client), Ok(listener)) => Some(Pair { client, listener, net, mon }),
@@ -227,9 +241,18 @@ pub async fn begin_pair(
     lcfg: &EndpointCfg,
     pair: &mut Pair,
 ) -> Option<(SessionHandle<()>, ListenerSessionHandle)> {
+    begin_pair_grouped(ccfg, lcfg, pair, [1, 2]).await
+}
+
+pub async fn begin_pair_grouped(
+    ccfg: &EndpointCfg,
+    lcfg: &EndpointCfg,
+    pair: &mut Pair,
+    groups: [u32; 2],
+) -> Option<(SessionHandle<()>, ListenerSessionHandle)> {
     let acc = session_acceptor(lcfg);
-    let c = sim::in_group(1, client_begin(ccfg, &mut pair.client));
-    let l = sim::in_group(2, async { acc.accept(&mut pair.listener).await });
+    let c = sim::in_group(groups[0], client_begin(ccfg, &mut pair.client));
+    let l = sim::in_group(groups[1], async { acc.accept(&mut pair.listener).await });
     // join both without spawning: poll them alternately inside this task
     let (c, l) = sim::op("session begin/accept", join2(c, l)).await?;
     match (c, l) {
